@@ -99,8 +99,9 @@ Theorem c10_kl_self_zero_partial :
   forall (K : Fld) n (m P Pi : M), is_inverse n P Pi -> kl_rational n m P m Pi = f0.
 Proof. intros K. exact (@kl_self_zero K). Qed.
 Print Assumptions c10_kl_self_zero_partial.
-(* partial: KL >= 0 and the equality of the code's Cholesky / inv_quad_logdet form with this
-   closed form need log det monotonicity (DESIGN 9.3); tested by the driver. *)
+(* partial on its own (rational part only); KL >= 0 and the equality of the code's Cholesky /
+   inv_quad_logdet form with the closed form, log-det part included, are now c10_kl_nonnegative and
+   c10_kl_closed_form_is_cholesky_form below (Cholesky-factored covariances). *)
 
 (* KL in the form the code computes it.  kl_mvn_mvn evaluates inv_quad_logdet of q against
    [mean_diffs, root_p], i.e. with P = Lp Lp^T and Q^-1 = Li^T Li (Li = Lq^-1):
@@ -118,8 +119,8 @@ Print Assumptions c10_kl_rational_cholesky_form.
 (* KL >= 0 over R, every n: 2 KL = kl_rational + ln det Q - ln det P, and for W = Li Lp with positive
    diagonal (lower triangular when both are Cholesky factors) ln det P - ln det Q = sum_i ln w_ii^2.
    partial: that last identity (determinant of a triangular factor = product of its diagonal, which is
-   how linear_operator evaluates logdet) is taken as the meaning of the log-det difference, not proved;
-   the driver compares kl_divergence with the closed form using exact determinants at 1e-8. *)
+   how linear_operator evaluates logdet) is taken here as the meaning of the log-det difference; it is
+   PROVED in Base/Det.v and the full statement is c10_kl_nonnegative below (name kept: DESIGN refers to it). *)
 Theorem c10_kl_nonnegative_partial :
   forall n (mp mq Lp Li : @M RF),
     (forall i, (i < n)%nat -> (0 < @mmul RF n Li Lp i i)%R) ->
@@ -143,6 +144,20 @@ Theorem c10_kl_nonnegative :
     (0 <= kl_rational n mp P mq Qi + ln (det n Q) - ln (det n P))%R.
 Proof. exact kl_nonneg_det. Qed.
 Print Assumptions c10_kl_nonnegative.
+
+(* ... and that expression IS the Cholesky / inv_quad_logdet form kl_mvn_mvn evaluates, log-det part
+   included:  kl_rational + ln det Q - ln det P = |W|_F^2 + |d|^2 - n - sum_i ln w_ii^2,
+   W = Lq^-1 Lp, d = Lq^-1 (mp - mq)  (every n) *)
+Theorem c10_kl_closed_form_is_cholesky_form :
+  forall n (mp mq P Q Qi Lp Lq Li : @M RF),
+    tri_lower n Lp -> tri_lower n Lq ->
+    (forall i, (i < n)%nat -> (0 < Lp i i)%R) -> (forall i, (i < n)%nat -> (0 < Lq i i)%R) ->
+    is_inverse n Lq Li ->
+    meq n n (mmul n Lp (mT Lp)) P -> meq n n (mmul n Lq (mT Lq)) Q -> is_inverse n Q Qi ->
+    (kl_rational n mp P mq Qi + ln (det n Q) - ln (det n P))%R
+    = kl2_chol n (@mmul RF n Li Lp) (fun a => @mmul RF n Li (@msub RF mp mq) a O).
+Proof. exact kl_closed_eq_cholesky_form. Qed.
+Print Assumptions c10_kl_closed_form_is_cholesky_form.
 
 (* the determinant facts behind it, generic field, every n: multiplicativity of the model's determinant and
    the determinant of a Cholesky-factored covariance *)
